@@ -96,11 +96,20 @@ CreateSession(s) ==
    /\ last' = Req("CreateSession", s, "ok", "", NoExtra)
    /\ UNCHANGED <<subs, items, nodes>>
 
-Activate(c, res) ==
+\* ActivateSession.  `bad` = the request carries a client signature that does not verify (only
+\* meaningful on a secured channel): such an activation must be rejected with a security error
+\* and must leave the session exactly as it was -- in particular a created session stays
+\* "created" and is refused by every protected service.  A well-signed activation may also be
+\* rejected (left open); a rejected activation never changes anything.
+Activate(c, res, bad) ==
    /\ IF c \in Sessions /\ sess[c] \in {"created", "activated"}
-      THEN res = "ok" /\ sess' = [sess EXCEPT ![c] = "activated"]
-      ELSE res = "sessErr" /\ sess' = sess
-   /\ last' = Req("Activate", c, res, "", NoExtra)
+      THEN \/ /\ res = "ok" /\ (~bad \/ Dev("activate-accepts-bad-signature"))
+              /\ sess' = [sess EXCEPT ![c] = "activated"]
+              /\ last' = Req("Activate", c, res, IF bad THEN "activate-accepts-bad-signature" ELSE "", NoExtra)
+           \/ /\ res = "secErr" /\ sess' = sess
+              /\ last' = Req("Activate", c, res, "", NoExtra)
+      ELSE /\ res \in {"sessErr", "secErr"} /\ sess' = sess
+           /\ last' = Req("Activate", c, res, "", NoExtra)
    /\ UNCHANGED <<subs, items, nodes>>
 
 \* Close: a valid session is closed (its subscriptions may or may not be deleted: `gone` is
@@ -229,6 +238,9 @@ ItemOp(svc, c, id, res, effect(_)) ==
        ex      == Ex(id, TRUE, foreign, FALSE, FALSE)
        fdev    == IF svc = "SetMode" THEN "setmode-foreign-effective" ELSE "deleteitem-foreign-effective"
        body(dev) ==
+          \* the whole request may be refused without any effect (e.g. because of its SubscriptionId
+          \* parameter): "fault", or BadSessionIdInvalid which this server also uses for "not yours"
+          \/ /\ res \in {"fault", "sessErr"} /\ UNCHANGED core /\ last' = Req(svc, c, res, dev, ex)
           \/ /\ ~known /\ res = "badId" /\ UNCHANGED core /\ last' = Req(svc, c, res, dev, ex)
           \/ /\ known /\ ~foreign
              /\ \/ res = "ok" /\ effect(id)
@@ -253,6 +265,19 @@ SetLevel(n, which, l) ==
    /\ last' = Req("SetLevel", "null", "ok", "", NoExtra)
    /\ UNCHANGED <<sess, subs, items>>
 
+\* The publish loop of a subscription that was deleted ends some time later and then cleans up
+\* after itself (Subscription.run's deferred DeleteSubscription(id)).  That clean-up belongs to the
+\* subscription that ended: it must not touch a subscription that is in use now, even if that one
+\* carries the same id.  `gone` = the id was in use before the clean-up and is not afterwards.
+Cleanup(id, gone) ==
+   /\ IF gone
+      THEN /\ Dev("stale-cleanup-deletes-live-subscription") /\ id \in DOMAIN subs
+           /\ subs' = Drop(subs, {id}) /\ items' = Drop(items, ItemsOf(id))
+           /\ UNCHANGED <<sess, nodes>>
+           /\ last' = Req("Cleanup", "null", "ok", "stale-cleanup-deletes-live-subscription", Ex(id, TRUE, TRUE, FALSE, FALSE))
+      ELSE /\ UNCHANGED core
+           /\ last' = Req("Cleanup", "null", "ok", "", NoExtra)
+
 \* A request that kills the server process is never part of the contract
 Crash(svc, c) == /\ Dev("crash-" \o svc) /\ UNCHANGED core
                  /\ last' = Req(svc, c, "crash", "crash-" \o svc, NoExtra)
@@ -268,13 +293,14 @@ Init == /\ sess = [s \in Sessions |-> "none"]
 
 Next ==
    \/ \E s \in Sessions : CreateSession(s)
-   \/ \E c \in Callers, r \in Results : Activate(c, r)
+   \/ \E c \in Callers, r \in Results \cup {"secErr"}, b \in BOOLEAN : Activate(c, r, b)
    \/ \E c \in Callers, r \in Results : \E g \in SUBSET DOMAIN subs : Close(c, r, g)
    \/ \E c \in Callers, n \in NodeSet, r \in Results : \E v \in Values \cup {0} : Read(c, n, r, v)
    \/ \E c \in Callers, n \in NodeSet, v \in Values, r \in Results : Write(c, n, v, r)
    \/ \E n \in NodeSet, w \in {"al", "ual"}, lv \in LevelSet : SetLevel(n, w, lv)
    \/ \E c \in Callers, r \in Results : Browse(c, r) \/ Unsupported(c, r)
    \/ \E c \in Callers, id \in SubIds, r \in Results : CreateSub(c, id, r) \/ DeleteSub(c, id, r)
+   \/ \E id \in SubIds, g \in BOOLEAN : Cleanup(id, g)
    \/ \E c \in Callers, sub \in SubIds, id \in ItemIds, r \in Results : CreateItem(c, sub, id, r)
    \/ \E c \in Callers, id \in ItemIds, r \in Results : SetMode(c, id, r) \/ DeleteItem(c, id, r)
 
@@ -286,7 +312,9 @@ Unchanged == core' = core
 
 InvSessionRequired == (last.svc \in Protected /\ ~last.valid) => last.res = "sessErr"
 InvIdsFresh  == (last.svc \in {"CreateSub", "CreateItem"} /\ last.res = "ok") => last.fresh
-InvOwnerOnly == (last.svc \in {"DeleteSub", "SetMode", "DeleteItem"} /\ last.valid /\ last.foreign) => last.res # "ok"
+InvOwnerOnly == /\ (last.svc \in {"DeleteSub", "SetMode", "DeleteItem"} /\ last.valid /\ last.foreign) => last.res # "ok"
+                \* nobody's clean-up removes a subscription that is in use
+                /\ last.svc = "Cleanup" => last.dev = ""
 InvAccess    == /\ (last.svc = "Read"  /\ last.valid /\ last.deniedR) => last.res # "value"
                 /\ (last.svc = "Write" /\ last.valid /\ last.deniedW) => last.res # "ok"
 InvNoDev     == last.dev = ""
